@@ -148,6 +148,12 @@ def Spec.call (s : Spec) : Option Instance :=
   | none => none
   | some ps => some ⟨s.cls.sym, ps⟩
 
+/-- `Builder.__repr__` = `flow.name(actor, *args, **kwargs)`: the class name, the positional arguments and the keyword
+arguments *whose value is not None* (`[f'{k}={extract(v)}' for k, v in kwargs.items() if v is not None]`; a callable is
+printed by its `__name__`). What is printed does not determine the builder. -/
+def Spec.repr (s : Spec) : Actor × List Hyper × Kwargs :=
+  (s.cls.sym, s.args, s.kwargs.filter (fun e => decide (e.2 ≠ Hyper.none)))
+
 /-- an element of the positional tuple returned by `__getnewargs_ex__`: the actor class or an argument value -/
 inductive NewArg where
   | actor (c : ActorClass)
